@@ -55,24 +55,53 @@ class OdometerContract:
             return [("result is a list", False)]
         a = value.cell.arr
         i = z3.Int("i")
-        p = z3.Int("p")
-        wrapped = z3.ForAll([i], z3.Implies(z3.And(i >= 0, i < n), z3.And(a[i] == 0, old[i] == up[i] - 1)))
-        pivot = z3.Exists(
-            [p],
-            z3.And(
-                p >= 0,
-                p < n,
-                a[p] == old[p] + 1,
-                a[p] < up[p],
-                z3.ForAll([i], z3.Implies(z3.And(i >= 0, i < p), a[i] == old[i])),
-                z3.ForAll([i], z3.Implies(z3.And(i > p, i < n), z3.And(a[i] == 0, old[i] == up[i] - 1))),
-            ),
-        )
         out.append(("len(result) == len(old)", value.n == n))
-        out.append(("result is the mixed-radix successor of old (pivot form) or everything wrapped to zero", z3.Or(pivot, wrapped)))
+        out.append(("result is the mixed-radix successor of old (pivot form) or everything wrapped to zero", successor_formula(n, a, old, up)))
         upn = env["upper_lim"].cell.arr
         out.append(("frame: upper_lim unchanged", z3.ForAll([i], z3.Implies(z3.And(i >= 0, i < n), upn[i] == up[i]))))
         if self.kind == "list":
             oa = env["old_ind"].cell.arr
             out.append(("frame: a list argument is not modified", z3.ForAll([i], z3.Implies(z3.And(i >= 0, i < n), oa[i] == old[i]))))
         return out
+
+
+def successor_formula(n, a, old, up):
+    """the postcondition proved above, as a formula over arrays a (result), old, up and the length n (quantified form)"""
+    i, p = z3.Int("i"), z3.Int("p")
+    wrapped = z3.ForAll([i], z3.Implies(z3.And(i >= 0, i < n), z3.And(a[i] == 0, old[i] == up[i] - 1)))
+    pivot = z3.Exists(
+        [p],
+        z3.And(
+            p >= 0,
+            p < n,
+            a[p] == old[p] + 1,
+            a[p] < up[p],
+            z3.ForAll([i], z3.Implies(z3.And(i >= 0, i < p), a[i] == old[i])),
+            z3.ForAll([i], z3.Implies(z3.And(i > p, i < n), z3.And(a[i] == 0, old[i] == up[i] - 1))),
+        ),
+    )
+    return z3.Or(pivot, wrapped)
+
+
+def successor_concrete(new, old, ups):
+    """the same postcondition instantiated at a fixed length len(new): a quantifier-free disjunction over the pivot position.
+    `instantiation_lemma(n)` checks (z3) that the quantified form implies this one, so callers that assume it assume no more than
+    what was proved for update_odometer."""
+    n = len(new)
+    cases = []
+    for p in range(n):
+        cases.append(z3.And(*([new[i] == old[i] for i in range(p)] + [new[p] == old[p] + 1, new[p] < ups[p]] + [z3.And(new[i] == 0, old[i] == ups[i] - 1) for i in range(p + 1, n)])))
+    cases.append(z3.And(*[z3.And(new[i] == 0, old[i] == ups[i] - 1) for i in range(n)]) if n else z3.BoolVal(True))
+    return z3.Or(*cases)
+
+
+def instantiation_lemma(n, timeout_ms=10000):
+    """z3: successor_formula(n, a, old, up) implies successor_concrete([a[0..n-1]], [old[0..n-1]], [up[0..n-1]]); returns 'unsat' when proved"""
+    a = z3.Array("a_res", z3.IntSort(), z3.IntSort())
+    old = z3.Array("a_old", z3.IntSort(), z3.IntSort())
+    up = z3.Array("a_up", z3.IntSort(), z3.IntSort())
+    s = z3.Solver()
+    s.set("timeout", timeout_ms)
+    s.add(successor_formula(z3.IntVal(n), a, old, up))
+    s.add(z3.Not(successor_concrete([a[i] for i in range(n)], [old[i] for i in range(n)], [up[i] for i in range(n)])))
+    return str(s.check())
